@@ -381,6 +381,9 @@ impl CapProp {
                 out.count("ratio_probes_on_long_virtual_sequences", 1);
             }
         }
+        if case.seq.old.len() > 4000 {
+            out.count("fragmented_cases", 1);
+        }
         // fault-free configuration, judged separately
         if case.only_k.is_none() {
             let none = cap_run(case, false, Sched::Never).map_err(|m| Fail {
@@ -542,6 +545,29 @@ impl Prop for CapProp {
             CapEntry::Script,
         ][rng.weighted(&weights)];
         let mut seq = seq;
+        // rarely: thousands of hunks (more than 4096 raw ops reach Compact)
+        let fragmented = entry != CapEntry::Script
+            && rng.chance(if tier == Tier::Quick { 1 } else { 2 }, 600);
+        if fragmented {
+            let blocks = 2300 + rng.usize(600);
+            let (o, n) = crate::gen::gen_fragmented(rng, blocks);
+            seq.old_range = (0, o.len());
+            seq.new_range = (0, n.len());
+            seq.old = o;
+            seq.new = n;
+            seq.index = crate::gen::IndexKind::Slice;
+            if seq.alg == crate::gen::Alg::Lcs {
+                seq.alg = crate::gen::Alg::Myers;
+            }
+            if seq.hasher.0 == 1 || seq.hasher.0 == 2 {
+                seq.hasher.0 = 0;
+            }
+        }
+        let entry = if fragmented && !matches!(entry, CapEntry::Ranges | CapEntry::Slices) {
+            CapEntry::Slices
+        } else {
+            entry
+        };
         if entry == CapEntry::Script && seq.n() + seq.m() > 80 {
             // scripts exercise Compact, small inputs with repeats do that best
             seq = gen_seq_case(rng, Size::Small, None);
@@ -561,6 +587,7 @@ impl Prop for CapProp {
             },
             only_k: None,
             cap: match (tier, size) {
+                _ if fragmented => 4,
                 (Tier::Quick, Size::Small) | (Tier::Quick, Size::Medium) => 256,
                 (Tier::Quick, _) => 16,
                 (Tier::Thorough, Size::Huge(_)) => 8,
@@ -588,7 +615,7 @@ impl Prop for CapProp {
     }
     fn shrink(&self, case: &Case) -> Vec<Case> {
         let mut out = Vec::new();
-        if let Some((o, n, d, i)) = case.ratio_probe {
+        if let Some((o, _n, d, i)) = case.ratio_probe {
             // halve the common part of the probe
             let eq = o - d;
             for neq in [eq / 2, eq - eq / 16, eq.saturating_sub(1)] {
@@ -644,6 +671,7 @@ impl Prop for CapProp {
             ("compact_merge", agg.hits[11] + agg.hits[12] + agg.hits[18] + agg.hits[19]),
             ("replace_merged_del_ins", agg.hits[27]),
             ("text_over_100_tokens", agg.hits[24]),
+            ("cases_with_thousands_of_hunks", c("fragmented_cases")),
             ("myers_deadline_fallback", agg.hits[0]),
             ("lcs_table_abandoned", agg.hits[2]),
         ]
